@@ -170,46 +170,15 @@ Proof.
   apply incoming_spec. assumption.
 Qed.
 
-(* matching dispatcher: for every registered path that the message address, read as an OSC 1.0
-   pattern, matches over its whole length: the enabled matching responders of that path that
-   accept, in registration order; paths in the order in which they were (last) registered.
-   FULL statement (not true of the implementation, see matching_global_order_refuted below):
-     map i_id (snd (dispatch_match_d st m t src port))
-       = filter (fun id => matches-its-path && fires ...) (cmdp st)      -- ONE global registration order *)
-Theorem dispatch_matching_by_path_partial : forall h m t src port,
+(* matching dispatcher (repaired, C18_matching_order.diff): exactly the enabled matching responders
+   whose path is matched over its whole length by the message address read as an OSC 1.0 pattern and
+   whose filters accept, in ONE registration order whatever their paths -- the FULL statement *)
+Theorem dispatch_matching : forall h m t src port,
   let st := final h in
-  map i_id (snd (dispatch_match_d st m t src port))
-    = flat_map (fun k => if matches m k then filter (fires st true k m src port) (cmdp st) else [])
-               (keys (act_match st))
-  /\ NoDup (keys (act_match st)).
-Proof.
-  intros h m t src port st. pose proof (Inv_final h) as HI. fold st in HI.
-  split; [apply match_ids; assumption | apply (inv_keys st HI true)].
-Qed.
-
-(* ONE registration order, as the property words it, holds in the matching dispatcher whenever at most
-   one registered path is matched by the message address (distinct responders' paths selected by a
-   pattern one at a time, or all matched responders sharing a path): then the invocations are exactly
-   filter fires_m over the registration order.  With several matched paths the order is by path first
-   (dispatch_matching_by_path_partial; matching_global_order_refuted is the counterexample). *)
-Theorem dispatch_matching_single_path_order : forall h m t src port k0,
-  let st := final h in
-  (forall k, In k (keys (act_match st)) -> matches m k = true -> k = k0) ->
   map i_id (snd (dispatch_match_d st m t src port)) = filter (fires_m st m src port) (cmdp st).
-Proof. intros h m t src port k0 st H. apply (match_single_path st m t src port k0 (Inv_final h) H). Qed.
-Example single_path_example :      (* matching responders /a (0), /b (1), /a (2, re-enabled last); "/a" matches one path: 2 then ... *)
-  let h := [OpCreate [47;97] true None None None 0%nat; OpCreate [47;98] true None None None 1%nat;
-            OpCreate [47;97] true None None None 2%nat; OpDisable 0%nat; OpEnable 0%nat] in
-  let m := {| m_addr := [47;97]; m_args := [] |} in
-  (forall k, In k (keys (act_match (final h))) -> matches m k = true -> k = [47;97])
-  /\ map i_id (snd (dispatch_match_d (final h) m TNow (1, 2) 3)) = [2; 0]%nat /\ cmdp (final h) = [1; 2; 0]%nat.
-Proof.
-  split; [|split; vm_compute; reflexivity].
-  intros k Hk Hm. vm_compute in Hk. destruct Hk as [<- | [<- | []]]; [reflexivity | vm_compute in Hm; discriminate].
-Qed.
+Proof. intros h m t src port st. apply match_ids, Inv_final. Qed.
 
-(* ... and, order aside, the matching dispatcher invokes exactly the enabled matching responders whose
-   path is matched over its whole length by the message address and whose filters accept, each once *)
+(* ... hence each once, and exactly those *)
 Theorem dispatch_matching_exactly_once : forall h m t src port,
   let st := final h in
   NoDup (map i_id (snd (dispatch_match_d st m t src port)))
@@ -308,13 +277,17 @@ Example raising_example :   (* responders 0, 1 (one-shot, raises), 2 on "/a": 0 
   /\ map inv_key (snd (step_x (fun tag => Nat.eqb tag 1) (fst r1) (OpIncoming m TNow (1, 2) 3))) = [(0, 0); (2, 2)]%nat.
 Proof. split; vm_compute; reflexivity. Qed.
 
-(* responders 0 ("/a"), 1 ("/b"), 2 ("/a"), all matching; the message "/?" invokes 0, 2, 1 *)
+(* the tree as found walked the dispatcher's table path by path: responders 0 ("/a"), 1 ("/b"), 2 ("/a"),
+   all matching; the message "/?" invoked 0, 2, 1 (replayed on the library: signature
+   C18:matching_order_grouped_by_path); the repaired walk gives 0, 1, 2 *)
 Theorem matching_global_order_refuted :
   let h := [OpCreate [47;97] true None None None 0%nat; OpCreate [47;98] true None None None 1%nat;
             OpCreate [47;97] true None None None 2%nat] in
-  map i_id (snd (incoming (final h) {| m_addr := [47;63]; m_args := [] |} TNow (1, 2) 3)) = [0; 2; 1]%nat
-  /\ cmdp (final h) = [0; 1; 2]%nat.
-Proof. split; vm_compute; reflexivity. Qed.
+  let m := {| m_addr := [47;63]; m_args := [] |} in
+  map i_id (snd (dispatch_match_orig (final h) m TNow (1, 2) 3)) = [0; 2; 1]%nat
+  /\ cmdp (final h) = [0; 1; 2]%nat
+  /\ map i_id (snd (dispatch_match_d (final h) m TNow (1, 2) 3)) = [0; 1; 2]%nat.
+Proof. repeat split; vm_compute; reflexivity. Qed.
 
 (* disabled, freed and already-fired one-shot responders are never invoked *)
 Theorem disabled_freed_oneshot_never : forall h,
@@ -444,7 +417,7 @@ Print Assumptions registration_order_rules.
 Print Assumptions raising_model_agrees.
 Print Assumptions parse_total.
 Print Assumptions dispatch_exact.
+Print Assumptions dispatch_matching.
 Print Assumptions dispatch_matching_exactly_once.
-Print Assumptions dispatch_matching_single_path_order.
 Print Assumptions invoked_function_is_current.
 Print Assumptions registry_runs_current_in_order.
